@@ -20,16 +20,20 @@ SPEC = {
                     "a different entry point from the one TUCAN calls); cross-checked against brute-force orbits for n<=7 on every run",
                     "molecules <= 400 atoms for the orbit check"],
     "monitors_required": ["c13_classes", "c13_orbit_check", "c13_label_independence", "c13_orbit_crosscheck"],
-    "required_obs": {"quick": ["c13_classes_coarser_than_orbits", "c13_cases_with_nontrivial_symmetry", "cov_symmetric_partial_orbit", "cov_long_refinement", "cov_corpus"]},
+    "required_obs": {"quick": ["c13_classes_coarser_than_orbits", "c13_cases_with_nontrivial_symmetry", "cov_symmetric_partial_orbit", "cov_long_refinement", "cov_refinement_ge_64_rounds_by_construction", "cov_hydrogen_free_polycyclic", "cov_refinement_rounds_gt_half_n", "cov_corpus"]},
     "watchdog_s": {"quick": 900, "thorough": 3600},
 }
 PLAN = {
-    "quick": {"small_n": 4, "two_palettes": True, "random": {"M2": 1200, "M3": 1200, "M4": 300, "M7s": 300}, "k": 2, "corpus": True},
-    "thorough": {"small_n": 5, "two_palettes": True, "small_sample": 0.1, "random": {"M2": 10000, "M3": 10000, "M4": 3000, "M7s": 3000}, "k": 3, "corpus": True, "cfi": 8},
+    "quick": {"small_n": 4, "two_palettes": True, "random": {"M2": 1200, "M3": 1200, "M4": 300, "M7s": 300, "M7long": 48, "M9poly": 800, "M9deep": 800}, "k": 2, "corpus": True},
+    "thorough": {"small_n": 5, "two_palettes": True, "small_sample": 0.1, "random": {"M2": 10000, "M3": 10000, "M4": 3000, "M7s": 3000, "M7long": 400, "M9poly": 8000, "M9deep": 8000}, "k": 3, "corpus": True, "cfi": 8},
 }
 
 
 def run_case(ctx, case):
+    return common.case_guard(ctx, case, _run_case)
+
+
+def _run_case(ctx, case):
     import tucan.canonicalization as c
     g0, mol = molprops.build_case_graph(case)
     ctx.evaluations += 1
@@ -55,6 +59,13 @@ def run_case(ctx, case):
         ctx.nontrivial(common.graph_key(g0))
     if case.get("cls") == "M7" and n >= 40:
         ctx.count("cov_long_refinement")
+    if case.get("cls") == "M7" and n >= 150:
+        ctx.count("cov_refinement_ge_64_rounds_by_construction")
+    if case.get("cls") == "M9":
+        ctx.count("cov_hydrogen_free_polycyclic")
+        colors, edges = bridge.colors_edges(r)
+        if iso.refinement_rounds(colors, edges) > n // 2:
+            ctx.count("cov_refinement_rounds_gt_half_n")
     molprops.coverage(ctx, case, g0)
     ctx.seen("class_count_hist", min(len(classes), 50))
     ctx.sample({"class": case.get("cls"), "name": case.get("name"), "atoms": n,
